@@ -160,6 +160,8 @@ func metaJSON(op *Op, data []byte) []byte {
 	}
 	if len(op.Meta) > 0 {
 		m["metadata"] = op.Meta
+	} else if op.EmptyMeta {
+		m["metadata"] = map[string]string{} // present but empty
 	}
 	b, _ := json.Marshal(m)
 	return b
@@ -462,6 +464,17 @@ func (r *Runner) resumable(op *Op, data []byte, ce condEval) (*Resp, string) {
 	}
 	if nreq >= 4 && interesting {
 		r.ResumableMulti++
+	}
+	if op.RetryFinal && fin.Panic == "" && fin.Status == 400 && op.MD5 == "wrong" {
+		// the client insists: the finalisation of a session whose bytes do not match the declared MD5 is sent again
+		again := send(last, fmt.Sprintf("bytes */%d", N), nil)
+		r.label("resumable-rejected-finalisation-retried")
+		if again.Panic != "" {
+			return again, ""
+		}
+		if again.Status >= 200 && again.Status < 300 {
+			return nil, fmt.Sprintf("an upload rejected for its MD5 (HTTP 400) was accepted when the same finalisation was sent again: HTTP %d %s", again.Status, clip(again.Body))
+		}
 	}
 	return fin, ""
 }
